@@ -24,6 +24,20 @@ Bool = TypeDesc("bool")
 Bytes = TypeDesc("bytes", None, None)
 Str = TypeDesc("str", None)
 Real = TypeDesc("real")
+IntList = TypeDesc("list", TypeDesc("int", None, None), None)  # list of ints of any length
+_INPUTS = {}           # concrete inputs of the harness being replayed (set by helper/native.py)
+_BUILD_ARG = None      # helper/native.py: build_arg(name, td, inputs)
+
+
+def open_dict(name, key_td, mk_key, key_of, value_tds, mk_value):
+    """native twin: the dict holding exactly the entries the counter-model materialised"""
+    d = {}
+    for i in range(int(_INPUTS.get(name + "#n", 0) or 0)):
+        if _INPUTS.get(f"{name}#{i}.key") is None:
+            continue
+        vals = [_BUILD_ARG(f"{name}#{i}.v{j}", td, _INPUTS) for j, td in enumerate(value_tds)]
+        d[mk_key(int(_INPUTS[f"{name}#{i}.key"]))] = mk_value(*vals)
+    return d
 
 
 def IntRange(lo=None, hi=None):
